@@ -910,6 +910,34 @@ func TestC41(t *testing.T) {
 		for i := 0; i < n; i++ {
 			programs = append(programs, genProgram(rng, thorough))
 		}
+		// all-FRESH negotiations on purpose: both caches empty (whatever is cached is dropped
+		// 20 ms before the round) and several connections negotiate at once under a one-way
+		// latency, so that every cache-status advertisement says FRESH - the corner of the
+		// decision table in which the two peers decide independently. Two shapes: k+k opposite
+		// dials released by one barrier (simultaneous open), and a burst of 2-4 dials from ONE
+		// side only (one peer opens several connections at once, e.g. concurrent first
+		// requests to the same node). The generated programmes reach them only by chance.
+		for i, nSim := 0, ev.N(40, 120); i < nSim; i++ {
+			sp := program{Nodes: 2, LatencyUS: []int{1000, 3000, 8000}[rng.Intn(3)]}
+			oneSided := i%3 != 0
+			k := 1 + rng.Intn(2)
+			if oneSided {
+				k = 3 + rng.Intn(3)
+			}
+			for ri := 0; ri < 4; ri++ {
+				rs := roundSpec{Loss: &lossSpec{Node: (i + ri) % 2, Peer: 1 - (i+ri)%2, LeadUS: 20000}, GapUS: 30000}
+				from := (i/2 + ri) % 2
+				for d := 0; d < k; d++ {
+					if oneSided {
+						rs.Dials = append(rs.Dials, dialSpec{From: from, To: 1 - from, OffUS: []int{0, 0, 0, 100, 250}[rng.Intn(5)], Unknown: d > 0 || rng.Intn(2) == 0})
+					} else {
+						rs.Dials = append(rs.Dials, dialSpec{From: 0, To: 1}, dialSpec{From: 1, To: 0})
+					}
+				}
+				sp.Rounds = append(sp.Rounds, rs)
+			}
+			programs = append(programs, sp)
+		}
 	}
 	workers := ev.Pick(8, 4)
 	if v := os.Getenv("VERIF_C41_WORKERS"); v != "" {
